@@ -2,7 +2,7 @@
    Property theorems only. *)
 From Coq Require Import List ZArith Bool.
 Import ListNotations.
-From PS Require Import Model.Router Model.Gossip Proofs.GossipProofs.
+From PS Require Import Model.Router Model.Gossip Model.Trace Model.SimpleRouters Proofs.GossipProofs Proofs.SimpleProofs.
 Local Open Scope Z_scope.
 
 (* The recipient set of one message, in every router state (reachable or not), for local and remote
@@ -64,6 +64,30 @@ Theorem C06_local_publication_sends_nothing : forall P sc g m g' out q i,
   gstep P sc g (GPublishLocal m) = Some (g', out) -> ~ In (OMsg q i) out.
 Proof. exact local_publication_sends_nothing. Qed.
 Print Assumptions C06_local_publication_sends_nothing.
+
+(* ---- the two simple routers ---- *)
+(* floodsub: exactly the topic peers with an outbound queue, minus the source and the author *)
+Theorem C06_floodsub_recipients : forall s m q,
+  In q (fs_recipients s m) <-> In q (aget_l (sm_topic m) (sr_tmap s)) /\ sexcl m q = false /\ has_q s q = true.
+Proof. exact fs_recipients_spec. Qed.
+(* randomsub: never the source, the author or a non-member; always every floodsub-only topic peer; all randomsub
+   topic peers when at most RandomSubD are eligible, otherwise min(max(RandomSubD, ceil(sqrt(size))), #eligible) distinct ones *)
+Theorem C06_randomsub_recipients : forall s size m chosen r tm,
+  aget (sm_topic m) (sr_tmap s) = Some tm ->
+  rs_recipients s size m chosen = Some r ->
+  let rsp := filter (fun p => negb (is_fs s p)) (filter (fun p => negb (sexcl m p)) tm) in
+  (forall q, In q r -> In q tm /\ sexcl m q = false /\ has_q s q = true)
+  /\ (forall q, In q tm -> sexcl m q = false -> has_q s q = true -> is_fs s q = true -> In q r)
+  /\ ((length rsp <= RandomSubD)%nat -> forall q, In q rsp -> has_q s q = true -> In q r)
+  /\ ((RandomSubD < length rsp)%nat ->
+        NoDup chosen /\ length chosen = Nat.min (Nat.max RandomSubD (csqrt size)) (length rsp)
+        /\ (forall q, In q chosen -> In q rsp)
+        /\ (forall q, In q r -> is_fs s q = false -> In q chosen)).
+Proof. exact rs_recipients_spec. Qed.
+Theorem C06_randomsub_no_topic : forall s size m chosen r,
+  aget (sm_topic m) (sr_tmap s) = None -> rs_recipients s size m chosen = Some r -> r = [].
+Proof. exact rs_no_topic. Qed.
+Print Assumptions C06_randomsub_recipients.
 
 (* ---- non-vacuity ---- *)
 Local Close Scope Z_scope.
